@@ -1,4 +1,4 @@
-(* C19K — source tie BY TRANSLATION for the component layer — Accuracy: Accumulate = acc_accumulate (state update, rejection without change), Result = acc_result, and over ANY sequence of batches the translated program computes the model's accumulated accuracy.
+(* C19K — source tie BY TRANSLATION for the component layer — Accuracy: Accumulate = acc_accumulate (state update, rejection without change), Result = acc_result, and over ANY sequence of batches the translated program computes the model's accumulated accuracy; composed with the model-level theorems of Properties/C19.v: END TO END, the translated NewAccuracy / Accumulate / Result over any history return matched / total over the accepted calls (0 before any), rejected calls leave no trace, and over the reals the value lies in [0, 1].
    Statements only (proofs: Proofs/Comp*P.v).  Model/GoComp.v is REGENERATED from /repo's Go sources on every run by
    harness/gox (comp.go): the component layer's own logic — input validators, config validators, constructors, the
    scale formulas of the initializers, the Accuracy counters — as loop-free programs of the imperative language of
@@ -14,7 +14,11 @@ From Coq Require Import String List ZArith Bool Arith.
 From Qeep Require Import Model.Scalar Model.Nd Model.Fill Model.Data Model.Valid Model.Api Model.Grad Model.Backprop Model.Components Model.Consts Model.DataIR Model.HeapExt Model.CompExt.
 From Qeep Require Model.GoComp.
 From Qeep Require Import Proofs.DataIRP.
-From Qeep Require Proofs.CompValidP Proofs.CompAccP Proofs.CompInitP.
+From Qeep Require Proofs.CompValidP Proofs.CompAccP Proofs.CompInitP Proofs.CompAccE2EP.
+From Coq Require Import List ZArith Bool.
+From Qeep Require Import Model.Scalar Model.Nd Model.Data Model.Api Model.Grad Model.Components.
+From Coq Require Import Reals.
+From Qeep Require Import Proofs.NdP Proofs.ElemP Proofs.CompP Proofs.AccP Spec.RScalar Proofs.CmpRP Proofs.AccRP.
 Import ListNotations.
 Local Open Scope string_scope.
 
@@ -143,3 +147,79 @@ Theorem Accuracy_over_any_history_on_one_heap :
   CompAccP.accProg_history fltb fleb lib fuel depth h bs h = Some [DF (acc_result a); DI 0].
 Proof. exact @CompAccP.Accuracy_history_fixed. Qed.
 Print Assumptions Accuracy_over_any_history_on_one_heap.
+
+Theorem model_folds_agree :
+  forall (A : Type) (SA : Scalar A) (h : heap) (calls : list (targ * targ)),
+  vals_wf h ->
+  forall a : accuracy,
+  CompAccP.acc_fold a (map (fun c : targ * targ => (h, fst c, snd c)) calls) = Some (acc_run h calls a).
+Proof. exact @CompAccE2EP.acc_fold_is_acc_run_any_ids. Qed.
+Print Assumptions model_folds_agree.
+
+Theorem translated_source_over_any_history_is_matched_over_total :
+  forall (A : Type) (SA : Scalar A) (fltb fleb : A -> A -> bool)
+    (lib : string -> list dval -> heap -> option (list dval * heap)) (fuel depth : nat) 
+    (h : heap) (calls : list (targ * targ)),
+  vals_wf h ->
+  Forall (fun c : targ * targ => CompAccP.targOk h (fst c) /\ CompAccP.targOk h (snd c)) calls ->
+  let acc := filter (accepted h) calls in
+  let total := list_sum (map (call_len h) acc) in
+  let matched := fold_left sadd (map (call_matched h) acc) (sconst 0 0) in
+  CompAccP.accProg_history fltb fleb lib fuel depth h
+    (map (fun c : targ * targ => (h, fst c, snd c)) calls) h =
+  Some [DF (if (total =? 0)%nat then sconst 0 0 else sdiv matched (sofnat total)); DI 0].
+Proof. exact @CompAccE2EP.source_accuracy_over_any_history. Qed.
+Print Assumptions translated_source_over_any_history_is_matched_over_total.
+
+Theorem translated_source_before_any_call_is_0 :
+  forall (A : Type) (SA : Scalar A) (fltb fleb : A -> A -> bool)
+    (lib : string -> list dval -> heap -> option (list dval * heap)) (fuel depth : nat) 
+    (h : heap), CompAccP.accProg_history fltb fleb lib fuel depth h [] h = Some [DF (sconst 0 0); DI 0].
+Proof. exact @CompAccE2EP.source_accuracy_before_any_call. Qed.
+Print Assumptions translated_source_before_any_call_is_0.
+
+Theorem translated_source_ignores_rejected_calls :
+  forall (A : Type) (SA : Scalar A) (fltb fleb : A -> A -> bool)
+    (lib : string -> list dval -> heap -> option (list dval * heap)) (fuel depth : nat) 
+    (h : heap) (calls : list (targ * targ)),
+  vals_wf h ->
+  Forall (fun c : targ * targ => CompAccP.targOk h (fst c) /\ CompAccP.targOk h (snd c)) calls ->
+  CompAccP.accProg_history fltb fleb lib fuel depth h
+    (map (fun c : targ * targ => (h, fst c, snd c)) calls) h =
+  CompAccP.accProg_history fltb fleb lib fuel depth h
+    (map (fun c : targ * targ => (h, fst c, snd c)) (filter (accepted h) calls)) h.
+Proof. exact @CompAccE2EP.source_accuracy_ignores_rejected_calls. Qed.
+Print Assumptions translated_source_ignores_rejected_calls.
+
+Theorem translated_source_rejected_call_anywhere :
+  forall (A : Type) (SA : Scalar A) (fltb fleb : A -> A -> bool)
+    (lib : string -> list dval -> heap -> option (list dval * heap)) (fuel depth : nat) 
+    (h : heap) (l1 l2 : list (targ * targ)) (c : targ * targ),
+  vals_wf h ->
+  Forall (fun c0 : targ * targ => CompAccP.targOk h (fst c0) /\ CompAccP.targOk h (snd c0))
+    (l1 ++ c :: l2) ->
+  accepted h c = false ->
+  CompAccP.accProg_history fltb fleb lib fuel depth h
+    (map (fun c0 : targ * targ => (h, fst c0, snd c0)) (l1 ++ c :: l2)) h =
+  CompAccP.accProg_history fltb fleb lib fuel depth h
+    (map (fun c0 : targ * targ => (h, fst c0, snd c0)) (l1 ++ l2)) h.
+Proof. exact @CompAccE2EP.source_accuracy_rejected_call_anywhere. Qed.
+Print Assumptions translated_source_rejected_call_anywhere.
+
+Theorem translated_source_result_in_unit_interval :
+  forall (thr : R) (draw : bool -> nat -> R) (fltb fleb : R -> R -> bool)
+    (lib : string -> list (@dval R) -> @heap R -> option (list (@dval R) * @heap R)) 
+    (fuel depth : nat) (h : @heap R) (calls : list (targ * targ)),
+  0 <= thr ->
+  @vals_wf R h ->
+  (forall c : targ * targ, @In (targ * targ) c calls -> @accepted R h c = true -> call_sep thr h c) ->
+  @Forall (targ * targ)
+    (fun c : targ * targ =>
+     @CompAccP.targOk R h (@fst targ targ c) /\ @CompAccP.targOk R h (@snd targ targ c)) calls ->
+  exists r : R,
+    @CompAccP.accProg_history R (RS thr draw) fltb fleb lib fuel depth h
+      (@map (targ * targ) (@heap R * targ * targ)
+         (fun c : targ * targ => (h, @fst targ targ c, @snd targ targ c)) calls) h =
+    @Some (list (@dval R)) [@DF R r; @DI R 0] /\ 0 <= r <= 1.
+Proof. exact @CompAccE2EP.source_accuracy_in_unit_interval. Qed.
+Print Assumptions translated_source_result_in_unit_interval.
